@@ -31,7 +31,7 @@ Step ==
        /\ Check("C08.exception-dates-keep-file-order", c, l, All(LAMBDA u : C08_ExceptionDatesKeepFileOrder(feed, u.res)))
        /\ Check("C08.frequencies-keep-file-order", c, l, All(LAMBDA u : C08_FrequenciesKeepFileOrder(feed, u.res)))
        /\ Check("C08.file-order-kept", c, l, All(LAMBDA u : C08_FileOrderKept(feed, u.res, u.accepted)))
-       /\ Check("C09.warnings-describe-the-row", c, l, All(LAMBDA u : C09_WarningsDescribeTheRow(feed, u.res, u.warnOk)))
+       /\ Check("C09.warnings-describe-the-row", c, l, All(LAMBDA u : C09_WarningsDescribeTheRow(feed, u.res, u.accepted, u.warnOk)))
        /\ Check("C11.services", c, l, All(LAMBDA u : C11_Services(feed, u.res)))
        /\ Check("C11.zone", c, l, All(LAMBDA u : C11_Zone(feed, u.res)))
        (* C01: well-formed feeds *)
